@@ -127,7 +127,7 @@ def connected_units_case(rng):
 def run(chk, replay=None):
     lib = build_lib()
     hx = build_hx('hx_roundtrip', lib)
-    leandir, ok, out, changed = standard_lean(chk, 'C04')
+    leandir, ok, out, changed = standard_lean(chk, 'C04', {'Cellml/Generated/MathWalk.lean': tables.mathml_walk_table(REPO)})
     chk.assumptions += [
         'the Lean part models two uniqueness checks (component names in traversal order, collected ids) and the identifier syntax; every other rule is exercised on the implementation only: valid-by-construction documents must be accepted with zero issues and every injected single-rule violation must raise an error citing one of the rules listed for it',
         'faults are injected as additional elements (a new variable, math block, reset, units, component, connection or import) at a random applicable location: top-level or encapsulated component, first or last child; the W3C MathML DTD inside libxml2 is not modelled',
